@@ -167,18 +167,19 @@ func Families(tier string) []Family {
 	// must see them (C05, C10, C11, C12)
 	{
 		f := Family{Name: "late-wrapper"}
-		toks := Ts("w", "s", "p", "--verb", "--ver", "--verbosity=x", "--so", "--tok=y", "x")
+		toks := Ts("w", "s", "p", "q", "--verb", "--ver", "--verbosity=x", "--so", "--tok=y", "x")
 		for mode := 0; mode < 2; mode++ {
 			for _, help := range []bool{false, true} {
 				c := Cfg{Mode: mode, OptsLate: true}
-				c.Nodes = []NodeCfg{rootNode(0, false), cmdNode("w", 1, 0, false, true), cmdNode("s", 2, 0, false, true), cmdNode("p", 1, 0, false, true)}
-				c.Nodes[1].Unset = true
-				vb := opt("string", "verbosity", 2)
+				// q: a plain command created before the top level's options exist; p: the command whose creation hands them down
+				c.Nodes = []NodeCfg{rootNode(0, false), cmdNode("q", 1, 0, false, true), cmdNode("w", 1, 0, false, true), cmdNode("s", 3, 0, false, true), cmdNode("p", 1, 0, false, true)}
+				c.Nodes[2].Unset = true
+				vb := opt("string", "verbosity", 3)
 				vb.Req = true
-				tk := opt("string", "tok", 2)
+				tk := opt("string", "tok", 3)
 				tk.Env = T("VERIF_ENV_LW")
 				c.Env = []EnvCfg{{Name: T("VERIF_ENV_LW"), Val: T("fromenv")}}
-				c.Opts = []OptCfg{opt("bool", "verbose", 1, "v"), vb, opt("bool", "ver", 2), tk, opt("bool", "so", 3)}
+				c.Opts = []OptCfg{opt("bool", "verbose", 1, "v"), vb, opt("bool", "ver", 3), tk, opt("bool", "so", 4)}
 				if help {
 					c = WithHelp(c, "help")
 				}
